@@ -8,7 +8,13 @@ package client
 // parked inside the server's outbound dial, kills, failing reconnects, Close, bursts).  Every
 // boundary event (configFunc, factory.New, PacketConn.Close, connectedFunc, call start/return,
 // server saw request, kill, Close begin/end, quiescent census) is appended to one log under one
-// mutex; the log is replayed against the Coq LTS by the driver.  The property's own verdict
+// mutex; the log is replayed against the Coq LTS by the driver.  A call can also be HELD inside the
+// callbacks of its reconnect (configFunc after the config was evaluated, ConnFactory.New before the
+// socket exists, ConnFactory.New after the socket exists = before the handshake) while the script
+// issues further calls and Close from other goroutines and then opens the holds in a chosen order:
+// the real code keeps rc.m across reconnect(), so the others must queue up behind the mutex (the
+// controller recognises that state in the goroutine dump) and the boundary events of one locked
+// section must stay contiguous in the log.  The property's own verdict
 // (socket census at quiescent points, Close is final, counts, fresh config per connect) is
 // computed here on the implementation alone.
 
@@ -64,6 +70,7 @@ type c16Step struct {
 	How  string   `json:"how"`  // release: ok|err ; kill: sock|srv
 	F    []string `json:"f"`    // fault queue entries: ok cfgerr newerr hsconn hsauth
 	N    int      `json:"n"`
+	Hold []string `json:"hold"` // call: stages of its reconnect at which the call parks: cfg new hs
 }
 
 type c16Case struct {
@@ -133,8 +140,14 @@ func (f *c16Factory) New(net.Addr) (net.PacketConn, error) {
 		h.fail("connection factory of one config evaluation used twice")
 		return nil, errors.New("connection factory already used")
 	}
+	h.holdAt("new")
 	if f.fault == "newerr" {
-		h.log(c16Ev{E: "newerr"})
+		h.mu.Lock()
+		if h.rcClosed && h.logging {
+			h.why = append(h.why, "ConnFactory.New called after Close returned")
+		}
+		h.logLocked(c16Ev{E: "newerr"})
+		h.mu.Unlock()
 		return nil, errC16New
 	}
 	pc, err := net.ListenUDP("udp", &net.UDPAddr{IP: net.IPv4(127, 0, 0, 1)})
@@ -145,8 +158,12 @@ func (f *c16Factory) New(net.Addr) (net.PacketConn, error) {
 	h.mu.Lock()
 	s := &c16Sock{PacketConn: pc, h: h, sid: len(h.socks)}
 	h.socks = append(h.socks, s)
+	if h.rcClosed && h.logging {
+		h.why = append(h.why, fmt.Sprintf("ConnFactory.New called after Close returned (socket %d)", s.sid))
+	}
 	h.logLocked(c16Ev{E: "new", Sid: s.sid})
 	h.mu.Unlock()
+	h.holdAt("hs")
 	return s, nil
 }
 
@@ -173,7 +190,7 @@ type c16Outbound struct{ h *c16Hist }
 
 func (o *c16Outbound) TCP(reqAddr string) (net.Conn, error) {
 	h := o.h
-	// "c<g>-<mode>:80" or "kick:1"
+	// "c<g>-<mode>-<call number>:80" or "kick<n>:1"
 	host := strings.SplitN(reqAddr, ":", 2)[0]
 	if strings.HasPrefix(host, "kick") {
 		n, _ := strconv.Atoi(strings.TrimPrefix(host, "kick"))
@@ -183,10 +200,19 @@ func (o *c16Outbound) TCP(reqAddr string) (net.Conn, error) {
 		h.mu.Unlock()
 		return b, nil
 	}
-	parts := strings.SplitN(host, "-", 2)
+	parts := strings.SplitN(host, "-", 3)
 	g, _ := strconv.Atoi(strings.TrimPrefix(parts[0], "c"))
 	mode := parts[1]
-	h.log(c16Ev{E: "req", G: g})
+	seq, _ := strconv.Atoi(parts[2])
+	// the server works on its own goroutines: a request can surface after the call that sent it has
+	// returned (its connection was closed under it); N = number of the call of g it belongs to
+	h.mu.Lock()
+	stale := seq != h.callSeq[g]
+	h.logLocked(c16Ev{E: "req", G: g, N: seq})
+	h.mu.Unlock()
+	if stale {
+		return nil, errors.New("verif: stale request")
+	}
 	switch mode {
 	case "ok":
 		return newC16Null(), nil
@@ -259,6 +285,16 @@ type c16Hist struct {
 	startSeqOK  [c16NG]bool
 	prevRetAtSt [c16NG]string
 	streams     []*quic.Stream
+	// holds (histories with "hold" / "open" steps): the controller settles by goroutine state
+	conc       bool
+	holds      [c16NG][]string      // stages at which the call in flight of g still has to park (mu)
+	held       [c16NG]string        // stage g is parked at right now (mu)
+	holdCh     [c16NG]chan struct{} // opens the hold of g
+	goid       [c16NG]int64         // goroutine id of the call in flight (mu)
+	callSeq    [c16NG]int           // number of the call in flight of g (mu)
+	closerBusy bool                 // an rc.Close() is in flight on its own goroutine
+	closerGoid int64                // (mu)
+	closerDone chan struct{}
 }
 
 func (h *c16Hist) who() int {
@@ -304,6 +340,7 @@ func (h *c16Hist) configFunc() (*Config, error) {
 	}
 	h.logLocked(c16Ev{E: "cfg", Ok: f != "cfgerr"})
 	h.mu.Unlock()
+	h.holdAt("cfg") // "slow DNS": the config has been evaluated, the connection is not built yet
 	if f == "cfgerr" {
 		return nil, errC16Cfg
 	}
@@ -325,6 +362,22 @@ func (h *c16Hist) connectedFunc(c Client, info *HandshakeInfo, n int) {
 	h.nconn++
 	if n != h.nconn {
 		h.why = append(h.why, fmt.Sprintf("connectedFunc reported count %d on successful connect number %d", n, h.nconn))
+	}
+	if h.logging {
+		// one connect per loss: connect number n >= 2 is a RE-connect, so the connection before it was
+		// dropped and its socket closed; nothing but the socket of this connection is open now
+		var o []int
+		for _, sk := range h.socks {
+			if sk.closes == 0 && sk.sid != len(h.socks)-1 {
+				o = append(o, sk.sid)
+			}
+		}
+		if len(o) > 0 {
+			h.why = append(h.why, fmt.Sprintf("connectedFunc reported count %d while the socket(s) %v of earlier connection(s) are still open: connect counts must go 1..k with one connect per lost connection", n, o))
+		}
+		if h.rcClosed {
+			h.why = append(h.why, fmt.Sprintf("connectedFunc reported count %d after Close returned", n))
+		}
 	}
 	h.logLocked(c16Ev{E: "connected", N: n})
 	h.mu.Unlock()
@@ -370,6 +423,249 @@ func (h *c16Hist) cur() *clientImpl {
 	return nil
 }
 
+// cur() for a controller that must not wait for rc.m (a held call may own it): known=false if the
+// mutex stayed taken
+func (h *c16Hist) curTry() (cl *clientImpl, known bool) {
+	for i := 0; i < 50; i++ {
+		if h.rc.m.TryLock() {
+			c, _ := h.rc.client.(*clientImpl)
+			h.rc.m.Unlock()
+			return c, true
+		}
+		if h.anyHeld() {
+			return nil, false
+		}
+		time.Sleep(200 * time.Microsecond)
+	}
+	return nil, false
+}
+
+func (h *c16Hist) anyHeld() bool {
+	h.mu.Lock()
+	defer h.mu.Unlock()
+	for g := 0; g < c16NG; g++ {
+		if h.held[g] != "" {
+			return true
+		}
+	}
+	return false
+}
+
+// called on the goroutine of a call from inside configFunc / ConnFactory.New: park here if the script
+// asked for it, until the controller opens the hold
+func (h *c16Hist) holdAt(stage string) {
+	g := h.who()
+	if g < 0 {
+		return
+	}
+	h.mu.Lock()
+	k := -1
+	for i, x := range h.holds[g] {
+		if x == stage {
+			k = i
+			break
+		}
+	}
+	if k < 0 {
+		h.mu.Unlock()
+		return
+	}
+	h.holds[g] = append(append([]string{}, h.holds[g][:k]...), h.holds[g][k+1:]...)
+	h.held[g] = stage
+	ch := h.holdCh[g]
+	h.logLocked(c16Ev{E: "hold", G: g, R: stage})
+	h.mu.Unlock()
+	<-ch
+}
+
+// open the hold g is parked at (its later holds stay); if g is not parked, cancel its holds
+func (h *c16Hist) open(g int) {
+	h.mu.Lock()
+	if h.held[g] != "" {
+		h.logLocked(c16Ev{E: "open", G: g, R: h.held[g]})
+		h.held[g] = ""
+		h.holdCh[g] <- struct{}{}
+	} else {
+		h.holds[g] = nil
+	}
+	h.mu.Unlock()
+}
+
+func (h *c16Hist) openAll() {
+	if !h.conc {
+		return
+	}
+	h.mu.Lock()
+	for g := 0; g < c16NG; g++ {
+		h.holds[g] = nil
+		if h.held[g] != "" {
+			h.logLocked(c16Ev{E: "open", G: g, R: h.held[g]})
+			h.held[g] = ""
+			h.holdCh[g] <- struct{}{}
+		}
+	}
+	h.mu.Unlock()
+}
+
+// is goroutine id waiting for rc.m (state sync.Mutex.Lock, entered from a method of the
+// reconnectable client) in this dump of all goroutines?
+func c16OnRcMutex(dump string, id int64) bool {
+	if id <= 0 {
+		return false
+	}
+	hdr := "goroutine " + strconv.FormatInt(id, 10) + " ["
+	i := 0
+	if !strings.HasPrefix(dump, hdr) {
+		i = strings.Index(dump, "\n"+hdr)
+		if i < 0 {
+			return false
+		}
+		i++
+	}
+	blk := dump[i:]
+	if j := strings.Index(blk, "\n\n"); j >= 0 {
+		blk = blk[:j]
+	}
+	lines := strings.Split(blk, "\n")
+	st := strings.TrimPrefix(lines[0], hdr)
+	if !strings.HasPrefix(st, "sync.Mutex.Lock") && !strings.HasPrefix(st, "semacquire") {
+		return false
+	}
+	for _, ln := range lines[1:] {
+		if strings.HasPrefix(ln, "\t") {
+			continue
+		}
+		if strings.HasPrefix(ln, "internal/sync.") || strings.HasPrefix(ln, "sync.") || strings.HasPrefix(ln, "runtime.") ||
+			strings.HasPrefix(ln, "internal/runtime") {
+			continue
+		}
+		return strings.Contains(ln, "(*reconnectableClientImpl).")
+	}
+	return false
+}
+
+// wait until every call in flight (and a Close in flight) is finished, parked inside the server's
+// dial, parked at a hold, or - while somebody is parked at a hold - queued on rc.m
+func (h *c16Hist) settle() {
+	deadline := time.Now().Add(20 * time.Second)
+	var buf []byte
+	for spin := 0; ; spin++ {
+		var pend []int64
+		anyHeld := false
+		h.mu.Lock()
+		for g := 0; g < c16NG; g++ {
+			if h.held[g] != "" {
+				anyHeld = true
+			}
+			if !h.busy[g] {
+				continue
+			}
+			select {
+			case <-h.done[g]:
+				h.busy[g] = false
+				h.isParked[g] = false
+				continue
+			default:
+			}
+			if h.isParked[g] || h.held[g] != "" {
+				continue
+			}
+			select {
+			case <-h.parked[g]:
+				h.isParked[g] = true
+				continue
+			default:
+			}
+			pend = append(pend, h.goid[g])
+		}
+		if h.closerBusy {
+			select {
+			case <-h.closerDone:
+				h.closerBusy = false
+			default:
+				pend = append(pend, h.closerGoid)
+			}
+		}
+		h.mu.Unlock()
+		if len(pend) == 0 {
+			return
+		}
+		if anyHeld && spin >= 3 {
+			if buf == nil {
+				buf = make([]byte, 8<<20)
+			}
+			dump := string(buf[:runtime.Stack(buf, true)])
+			all := true
+			for _, id := range pend {
+				if !c16OnRcMutex(dump, id) {
+					all = false
+					break
+				}
+			}
+			// the holds cannot have changed (only this goroutine opens them)
+			if all {
+				return
+			}
+		}
+		if time.Now().After(deadline) {
+			h.fail("harness: calls in flight did not settle")
+			return
+		}
+		if spin < 10 {
+			time.Sleep(300 * time.Microsecond)
+		} else {
+			time.Sleep(3 * time.Millisecond)
+		}
+	}
+}
+
+// rc.Close() on its own goroutine (it may have to queue on rc.m behind a held call)
+func (h *c16Hist) closeAsync() {
+	if h.closerBusy {
+		h.openAll()
+		h.waitCloser()
+	}
+	h.mu.Lock()
+	h.closeBegun = true
+	h.nClose++
+	h.closerBusy = true
+	h.closerGoid = 0
+	h.closerDone = make(chan struct{})
+	done := h.closerDone
+	for o := 0; o < c16NG; o++ {
+		if h.busy[o] {
+			h.startSeqOK[o] = false
+		}
+	}
+	h.logLocked(c16Ev{E: "closebegin"})
+	h.mu.Unlock()
+	h.lastQuiet = false
+	go func() {
+		id := c16Goid()
+		h.mu.Lock()
+		h.closerGoid = id
+		h.mu.Unlock()
+		_ = h.rc.Close()
+		h.mu.Lock()
+		h.rcClosed = true
+		h.logLocked(c16Ev{E: "closeend"})
+		h.mu.Unlock()
+		close(done)
+	}()
+}
+
+func (h *c16Hist) waitCloser() {
+	if !h.closerBusy {
+		return
+	}
+	select {
+	case <-h.closerDone:
+		h.closerBusy = false
+	case <-time.After(15 * time.Second):
+		h.fail("harness: timeout waiting for Close")
+	}
+}
+
 func (h *c16Hist) openSids() []int {
 	var o []int
 	for _, s := range h.socks {
@@ -381,6 +677,9 @@ func (h *c16Hist) openSids() []int {
 }
 
 func (h *c16Hist) anyBusy() bool {
+	if h.closerBusy {
+		return true
+	}
 	for g := 0; g < c16NG; g++ {
 		if h.busy[g] {
 			return true
@@ -414,10 +713,19 @@ func (h *c16Hist) quiet() {
 	h.mu.Unlock()
 }
 
-func (h *c16Hist) startCall(g int, kind, mode string) {
-	seq := h.lastQuiet
+func (h *c16Hist) startCall(g int, kind, mode string, hold []string) {
+	seq := h.lastQuiet && !h.closerBusy
 	ssid := -1
-	if cl := h.cur(); cl != nil {
+	var cl *clientImpl
+	if h.conc {
+		var known bool
+		if cl, known = h.curTry(); !known {
+			ssid = -2 // rc.m is taken by a held call: the current client cannot be read
+		}
+	} else {
+		cl = h.cur()
+	}
+	if cl != nil {
 		if sk, ok := cl.pktConn.(*c16Sock); ok {
 			ssid = sk.sid
 		}
@@ -425,6 +733,12 @@ func (h *c16Hist) startCall(g int, kind, mode string) {
 	h.mu.Lock()
 	h.startSid[g] = ssid
 	h.startNsk[g] = len(h.socks)
+	h.holds[g] = append([]string{}, hold...)
+	h.held[g] = ""
+	h.holdCh[g] = make(chan struct{}, 1)
+	h.goid[g] = 0
+	h.callSeq[g]++
+	cseq := h.callSeq[g]
 	for o := 0; o < c16NG; o++ {
 		if o != g && h.busy[o] {
 			h.startSeqOK[o] = false
@@ -446,7 +760,10 @@ func (h *c16Hist) startCall(g int, kind, mode string) {
 	go func() {
 		c16Goids.Store(c16Goid(), &c16Who{h, g})
 		defer c16Goids.Delete(c16Goid())
-		h.log(c16Ev{E: "start", G: g})
+		h.mu.Lock()
+		h.goid[g] = c16Goid()
+		h.logLocked(c16Ev{E: "start", G: g, N: cseq})
+		h.mu.Unlock()
 		var err error
 		if kind == "udp" {
 			var u HyUDPConn
@@ -456,7 +773,7 @@ func (h *c16Hist) startCall(g int, kind, mode string) {
 			}
 		} else {
 			var c net.Conn
-			c, err = h.rc.TCP(fmt.Sprintf("c%d-%s:80", g, mode))
+			c, err = h.rc.TCP(fmt.Sprintf("c%d-%s-%d:80", g, mode, cseq))
 			if c != nil {
 				_ = c.Close()
 			}
@@ -468,7 +785,7 @@ func (h *c16Hist) startCall(g int, kind, mode string) {
 		if r == "closed" && !h.closeBegun {
 			just, filled := false, false
 			for _, sk := range h.socks {
-				if sk.sid == h.startSid[g] || sk.sid >= h.startNsk[g] {
+				if sk.sid == h.startSid[g] || sk.sid >= h.startNsk[g] || h.startSid[g] == -2 {
 					just = just || sk.lost
 					filled = filled || sk.filled
 				}
@@ -529,6 +846,14 @@ func (h *c16Hist) release(g int, how string) {
 	if !h.busy[g] {
 		return
 	}
+	if h.conc {
+		// waiting for one call to finish: nothing may stay parked in front of it
+		h.openAll()
+		h.settle()
+		if !h.busy[g] {
+			return
+		}
+	}
 	if h.isParked[g] {
 		select {
 		case h.gates[g] <- how:
@@ -539,6 +864,11 @@ func (h *c16Hist) release(g int, how string) {
 }
 
 func (h *c16Hist) kill(how string) {
+	if h.conc {
+		h.openAll()
+		h.settle()
+		h.waitCloser()
+	}
 	cl := h.cur()
 	if cl == nil || cl.conn.Context().Err() != nil {
 		return
@@ -602,6 +932,11 @@ func (h *c16Hist) waitKick() net.Conn {
 }
 
 func (h *c16Hist) fill() {
+	if h.conc {
+		h.openAll()
+		h.settle()
+		h.waitCloser()
+	}
 	cl := h.cur()
 	if cl == nil {
 		return
@@ -670,6 +1005,11 @@ func c16Run(i int, c c16Case, tlsc server.TLSConfig) (out c16Out) {
 	if !c.Lazy && c.Init != "" {
 		h.faults = append(h.faults, c.Init)
 	}
+	for _, st := range c.Steps {
+		if len(st.Hold) > 0 || st.Op == "open" {
+			h.conc = true
+		}
+	}
 	h.log(c16Ev{E: "init", Ok: c.Lazy})
 	cli, err := NewReconnectableClient(h.configFunc, h.connectedFunc, c.Lazy)
 	h.log(c16Ev{E: "initend", R: c16Class(err)})
@@ -696,8 +1036,10 @@ func c16Run(i int, c c16Case, tlsc server.TLSConfig) (out c16Out) {
 				if h.busy[st.G] {
 					h.release(st.G, "ok")
 				}
-				h.startCall(st.G, st.Kind, st.Mode)
-				if st.Mode == "gate" && st.Kind != "udp" {
+				h.startCall(st.G, st.Kind, st.Mode, st.Hold)
+				if h.conc {
+					h.settle()
+				} else if st.Mode == "gate" && st.Kind != "udp" {
 					h.waitParkedOrDone(st.G)
 				} else {
 					h.waitDone(st.G, "call")
@@ -710,7 +1052,16 @@ func c16Run(i int, c c16Case, tlsc server.TLSConfig) (out c16Out) {
 				h.kill(st.How)
 			case "fill":
 				h.fill()
+			case "open":
+				// open the hold of one goroutine; everybody who was queued behind it moves on
+				h.open(st.G)
+				h.settle()
 			case "close":
+				if h.conc {
+					h.closeAsync()
+					h.settle()
+					break
+				}
 				h.mu.Lock()
 				h.closeBegun = true
 				h.nClose++
@@ -722,6 +1073,11 @@ func c16Run(i int, c c16Case, tlsc server.TLSConfig) (out c16Out) {
 				h.logLocked(c16Ev{E: "closeend"})
 				h.mu.Unlock()
 			case "burst":
+				if h.conc {
+					h.openAll()
+					h.settle()
+					h.waitCloser()
+				}
 				var gs []int
 				for g := 0; g < st.N && g < c16NG; g++ {
 					if h.busy[g] {
@@ -731,7 +1087,7 @@ func c16Run(i int, c c16Case, tlsc server.TLSConfig) (out c16Out) {
 				wasQuiet := h.lastQuiet
 				for g := 0; g < st.N && g < c16NG; g++ {
 					h.lastQuiet = false // concurrent calls: no sequential verdict
-					h.startCall(g, st.Kind, st.Mode)
+					h.startCall(g, st.Kind, st.Mode, nil)
 					gs = append(gs, g)
 				}
 				_ = wasQuiet
@@ -742,11 +1098,13 @@ func c16Run(i int, c c16Case, tlsc server.TLSConfig) (out c16Out) {
 			h.quiet()
 		}
 		// drain
+		h.openAll()
 		for g := 0; g < c16NG; g++ {
 			if h.busy[g] {
 				h.release(g, "ok")
 			}
 		}
+		h.waitCloser()
 		h.quiet()
 		h.mu.Lock()
 		// what the code guarantees about repeated closes (theorem C16_close_count_bound): a socket
